@@ -590,6 +590,10 @@ def run(ctx):
     inexact = sum(1 for e in events if e["op"] == "trans" for it in e["items"]
                   if it["d"]["step"] > 0 and it["d"]["cls"] in ("Float", "DiscreteUniform") and it["back"]["dev"] > 0)
     ctx.notes["stepped_float_round_trips_not_bit_identical"] = inexact
+    ctx.notes["D14_round_trips_of_high_one_double_below"] = sum(
+        1 for e in events if e["op"] == "trans" and e["t01"] == 0 for it in e["items"]
+        if it["d"]["cls"] in ("Float", "Uniform") and it["d"]["step"] == 0 and it["d"]["log"] == 0
+        and it["o"]["fl"] == it["d"]["hi"] and it["ul"] == 1)
     seen = set()
     for rc, e in zip(recipes, events):
         if e["op"] not in seen and len(seen) < 5 and e["op"] in ("rt", "contains", "trans", "box", "compat"):
